@@ -26,7 +26,7 @@ PROPS = {
     "C01": dict(quick_checks=8000, enum=True),
     "C02": dict(quick_checks=2500, thorough_checks=20000, enum=True),
     "C03": dict(quick_checks=12000, thorough_checks=100000, enum=True, fuzz=["FuzzC03JSON", "FuzzC03CBOR", "FuzzC03UBJSON"]),
-    "C04": dict(quick_checks=8000),
+    "C04": dict(quick_checks=8000, enum=True),
     "C05": dict(quick_checks=8000, enum=True, fuzz=["FuzzC05"]),
     "C06": dict(quick_checks=8000, fuzz=["FuzzC06"]),
     "C07": dict(quick_checks=8000, enum=True),
@@ -41,7 +41,7 @@ PROPS = {
     "C16": dict(level="fault_enumeration", quick_checks=1500, thorough_checks=10000, enum=True),
     "C17": dict(quick_checks=2500, thorough_checks=12000),
     "C18": dict(quick_checks=3000, thorough_checks=20000, enum=True),
-    "C19": dict(quick_checks=300, quick_shards=4, thorough_checks=3000, thorough_shards=8, thorough_rounds=10, race=True, hang_s=60),
+    "C19": dict(quick_checks=300, quick_shards=4, thorough_checks=3000, thorough_shards=8, thorough_rounds=10, race=True, hang_s=60, enum=True),
     "C20": dict(quick_checks=2500, thorough_checks=15000),
 }
 
